@@ -261,7 +261,7 @@ pub fn check(scn: &Scenario, stats: &mut Stats) -> Vec<Violation> {
     let mut table: BTreeMap<String, String> = scn.expected_levels.clone();
     for &e in &scn.entropy {
         let run = |flags: &[String], color: bool| {
-            t2::run_rva(&t2::RvaCall { sandbox: &sb, base: &scn.world.base, flags, entropy: e, plan: &spec.plan, profile: &spec.profile, force_color: color, cpu_seconds: 10, raw_base: None, stdout_fault: None, fifos: vec![] })
+            t2::run_rva(&t2::RvaCall { sandbox: &sb, base: &scn.world.base, flags, entropy: e, plan: &spec.plan, profile: &spec.profile, force_color: color, cpu_seconds: 10, raw_base: None, stdout_fault: None, fifos: vec![], arg_style: 0 })
         };
         // reference: --json --all-files (every diagnostic of every file)
         let jflags = vec!["--json".to_string(), "--all-files".to_string()];
@@ -487,7 +487,7 @@ pub fn check(scn: &Scenario, stats: &mut Stats) -> Vec<Violation> {
             for flags in [vec!["--no-color".to_string()], vec!["--no-color".to_string(), "--all-files".to_string()]] {
                 let Some(clean) = plain_out.get(&mode_name(&flags)) else { continue };
                 let plan: Vec<String> = (1..=4).map(|k| format!("open:{}:redirect:@/{TOCTOU_FILE}", analysis_opens + k)).collect();
-                let Ok(r) = t2::run_rva(&t2::RvaCall { sandbox: &sb, base: &scn.world.base, flags: &flags, entropy: e, plan: &plan, profile: &spec.profile, force_color: false, cpu_seconds: 10, raw_base: None, stdout_fault: None, fifos: vec![] }) else {
+                let Ok(r) = t2::run_rva(&t2::RvaCall { sandbox: &sb, base: &scn.world.base, flags: &flags, entropy: e, plan: &plan, profile: &spec.profile, force_color: false, cpu_seconds: 10, raw_base: None, stdout_fault: None, fifos: vec![], arg_style: 0 }) else {
                     stats.inc("harness:spawn_failed");
                     return out;
                 };
